@@ -34,7 +34,9 @@ META = {
                "autodiscover: <= 2 devices (thorough 3), instance count 0..2 (thorough 0..4), symbolic status "
                "/ enabled / type, one fault (silence or framing error) at a symbolic step",
                "two runs in one process against independent units: input value (asked/asked, given/asked), "
-               "24-bit filter set and query, scheme"],
+               "24-bit filter set and query, scheme",
+               "a healthy device reporting exactly 32 (and 31) instances, the first, last-but-one and last of "
+               "them with symbolic enabled flag and type"],
     "stubs": ["isinstance/int shims", "EnumProxy for EventScheme inside dali.device.sequences",
               "SymFlag stand-in for IntFlag instances in symbolic mode"],
     "outside": ["resolutions outside 1..32", "instance counts > 4 in autodiscover (thorough bound)",
